@@ -407,7 +407,10 @@ def run_query(ctx, q, tag="", extra_defs=(), mut_overlay=None, want_replay=True,
             res["failed_kind"] = "property" if prop_fail else "memory-safety"
             if want_replay:
                 first = (prop_fail + check_fail)[0]
-                cmd2 = ["cbmc", gb] + fl + ["--json-ui", "--trace", "--property", first["property"]]
+                # the trace run must NOT slice the formula: --slice-formula drops the assignments of inputs that do not
+                # influence the property from the equation, they are then missing from the trace and the remaining IN_*
+                # values would be replayed natively in shifted positions (counterexample "not reproduced")
+                cmd2 = ["cbmc", gb] + [x for x in fl if x != "--slice-formula"] + ["--json-ui", "--trace", "--property", first["property"]]
                 outp2 = os.path.join(qdir, "trace.json")
                 rc2, _, _, _, _ = run_cmd(cmd2, cwd=qdir, timeout=timeout, mem_gb=mem, stdout_path=outp2)
                 trace = None
